@@ -153,6 +153,28 @@ func runC14(c *eng.Ctx, tier string) {
 	if n3 == 0 {
 		c.Undecided("R-C14-3", nil, 0, "construction of api.SecretValue in package db", "no store to SecretValue.Value found")
 	}
+	// metadata slices handed out are built fresh, never a slice kept in the shared state
+	for _, f := range p.PkgFuncs("db") {
+		eng.Instrs(f, func(in ssa.Instruction) {
+			st, ok := in.(*ssa.Store)
+			if !ok {
+				return
+			}
+			fr, ok := eng.FieldOfAddr(st.Addr)
+			if !ok || !fr.Is("types/api", "SecretInfo", "Versions") {
+				return
+			}
+			fresh := !c.P.DependsOn(st.Val, func(v ssa.Value) bool {
+				fr2, _, isF := eng.LoadedField(v)
+				if !isF || !isKVState(fr2) {
+					return false
+				}
+				_, isSlice := v.Type().Underlying().(*types.Slice)
+				return isSlice
+			})
+			c.Check(fresh, "R-C14-3", f, in.Pos(), "SecretInfo.Versions = "+eng.ValStr(st.Val), "the version list handed out is built for this response (no slice stored in the shared state is returned: the handler marshals it after the lock is released)", "derives from a slice kept in kv/secret state")
+		})
+	}
 	// stored element type is immutable
 	if sec := p.Named("db", "secret"); sec != nil {
 		st := sec.Underlying().(*types.Struct)
@@ -179,6 +201,22 @@ func runC14(c *eng.Ctx, tier string) {
 			}
 			if g, ok := st.Addr.(*ssa.Global); ok && !strings.HasPrefix(eng.Outer(f).Name(), "init") {
 				c.Bad("R-C14-4", f, in.Pos(), "write of package variable "+g.Name(), "handlers keep no mutable package-level state", "stored outside init")
+			}
+		})
+	}
+	for _, f := range p.PkgFuncs("server") {
+		if strings.HasPrefix(eng.Outer(f).Name(), "init") {
+			continue
+		}
+		eng.Instrs(f, func(in ssa.Instruction) {
+			for _, op := range in.Operands(nil) {
+				g, ok := (*op).(*ssa.Global)
+				if !ok || g.Pkg == nil || g.Pkg.Pkg != p.TypesPkg("server") {
+					continue
+				}
+				t := eng.Deref(g.Type())
+				okk := eng.IsNamed(t, "embed", "FS")
+				c.Check(okk, "R-C14-4", f, in.Pos(), "package-level variable "+g.Name()+" used in "+eng.FName(f), "request handling shares no package-level state between requests (only the embedded, read-only file systems): no pools, caches or counters that concurrent requests could observe through each other", "type "+eng.TypeShort(t))
 			}
 		})
 	}
